@@ -419,6 +419,32 @@ mod verif_replay_interp {
         }
     }
 
+    /// C08: an evaluation error anywhere in an expression list (`a; b; c`), not only in its last expression, places
+    /// error.execution on the internal queue; the expressions after the failing one are not evaluated
+    #[test]
+    fn verif_replay_interp_error_inside_expression_list() {
+        for c in [
+            r#"<script>nosuch = 1; v = 2</script>"#,
+            r#"<script>v = nosuch; v = 2</script>"#,
+            r#"<script>10 % zero; v = 2</script>"#,
+            r#"<script>abs('x'); v = 2</script>"#,
+            r#"<script>v = 1; nosuch = 3; v = 2</script>"#,
+            r#"<log expr="nosuch; 5"/>"#,
+            r#"<assign location="v" expr="nosuch; 5"/>"#,
+        ] {
+            assert_eq!(run(&error_doc(c), &[]), fin("pass"), "content {}", c);
+        }
+        // ... and the rest of the list is not evaluated: v keeps the value it had when the error occurred
+        for (c, g) in [
+            (r#"<script>nosuch = 1; v = 2</script>"#, "v == 1"),
+            (r#"<script>v = 5; nosuch = 3; v = 2</script>"#, "v == 5"),
+        ] {
+            assert_eq!(run(&sysvar_doc(c, g), &[]), fin("pass"), "content {} then guard {}", c, g);
+        }
+        // a list without errors evaluates every expression in order
+        assert_eq!(run(&sysvar_doc(r#"<script>v = 5; v = v + 1; v = v * 2</script><raise event="error.execution"/>"#, "v == 12"), &[]), fin("pass"));
+    }
+
     fn sysvar_doc(content: &str, guard: &str) -> String {
         format!(
             r###"<scxml xmlns="http://www.w3.org/2005/07/scxml" name="machine" initial="s0" version="1.0" datamodel="rfsm-expression">
